@@ -67,8 +67,15 @@ def programs(tier, seed):
             for init in ("empty", "both", "l2only"):
                 progs.append({"init": init, "clients": [{"port": pa, "cmds": [a]}, {"port": pb, "cmds": [b]}]})
     if tier == "quick":
-        rng.shuffle(progs)
-        progs = progs[:260]
+        # always kept: a main-port get or get-and-touch that finds the key in L2 only (it re-populates L1 in
+        # several backend calls) against every command on either port - the window every lock mode protects
+        def refill(p):
+            a, b = p["clients"]
+            return p["init"] == "l2only" and any(x["port"] == "main" and x["cmds"][0]["op"] in ("get", "gat") for x in (a, b))
+        keep = [p for p in progs if refill(p) and p["clients"][0]["port"] == "main" and p["clients"][0]["cmds"][0]["op"] in ("get", "gat")]
+        rest = [p for p in progs if p not in keep]
+        rng.shuffle(rest)
+        progs = keep + rest[:max(0, 300 - len(keep))]
     extra = 60 if tier == "quick" else 600
     allops = ops_for("k1", True) + ops_for("k2", False)
     for _ in range(extra):
